@@ -132,6 +132,19 @@ where
         self.free.push_back(identifier.index);
     }
 
+    /// Returns the number of slots that are currently free.
+    pub(crate) fn free_len(&self) -> usize {
+        self.free.len()
+    }
+
+    /// Sort the free slots from position `start` onward, leaving the order of the earlier ones
+    /// untouched.
+    pub(crate) fn sort_free_from(&mut self, start: usize) {
+        if let Some(freed) = self.free.make_contiguous().get_mut(start..) {
+            freed.sort_unstable();
+        }
+    }
+
     /// Update the location of the entity identified by `identifier`, skipping checks for whether
     /// the allocation exists.
     ///
